@@ -90,6 +90,9 @@ type C02Plan struct {
 	RejectOffset int `json:"reject_offset,omitempty"`
 }
 
+var fieldWords = []string{"track", "browser", "tracking_ctg7", "browser_position", "chr", "gff-version", "date", "Type", "DNA", "end-DNA",
+	"sequence-region", "NaN", "Inf", "nil", "null", "true", "0", "-1", "1e3", "0x1F", "+", "-", ".", "..", "\\t", "\\n", "%s", "%d%%"}
+
 const fieldChars = "abcXYZ019_.:|>@+#;=-/ *~!\"'"
 
 // genField draws a non-empty, tab-free, trimmed text field not starting with '#'.
@@ -124,6 +127,16 @@ func genField(r *simrt.RNG, noSpace bool) string {
 			}
 			if !utf8.ValidString(s) {
 				s = u
+			}
+		}
+		if r.Intn(12) == 0 {
+			// words a format gives a meaning to elsewhere (header and
+			// directive keywords, number and placeholder spellings)
+			kw := fieldWords[r.Intn(len(fieldWords))]
+			if r.Bool() {
+				s = kw
+			} else {
+				s = kw + s
 			}
 		}
 		if s != "" && s[0] != '#' {
